@@ -343,7 +343,7 @@ def check(ctx):
             adds = [(e.target, e.value, gsa.show(e.cond)[-80:]) for e in locs][:6]
             if ok:
                 a_ = acc[0]
-                EMB = r'->has_embedded_type$'
+                EMB = r'(->|\.)has_embedded_type$'
                 upd = [e for e in locs if e.target == a_ and a_ in terms(e.value)]
                 emb_t = [terms(e.value) for e in upd if gsa.allowed(WS, e, [(EMB, True)])]
                 emb_f = [terms(e.value) for e in upd if gsa.allowed(WS, e, [(EMB, False)])]
